@@ -39,6 +39,11 @@
 EXTENDS Naturals, Sequences, FiniteSets, TLC, Json
 CONSTANTS Node, RF, Txs, MaxView, MaxDup, MaxCrash, MaxLose,
           QuorumDelta,    \* 0: the design (majority); 1: deviation (one reply too few)
+          HoldBack,       \* set of <<node, sequence>>: ReplicateWrite messages for that node and sequence stay in flight for ever
+                          \* (a legal delay; used to steer behaviour generation towards gaps and catch-up)
+          TxStream,       \* tx id -> the stream its events belong to
+          PinSeq,         \* TRUE: the design (a commit served by catch-up is appended at its own sequence only);
+                          \* FALSE: deviation (it is appended wherever the replica's log ends)
           CheckConfirm    \* TRUE: the design (ConfirmTransaction verifies transaction id and sequences);
                           \* FALSE: deviation (the count is written to whatever sits at those sequences)
 \* Txs : function tx id -> number of events (1 or 2)
@@ -54,8 +59,10 @@ VARIABLES log,      \* log[n]   : sequence of tx ids
           msgs,     \* set of messages in flight
           coord,    \* coord[tx] : [c, k, ok (set of nodes counted), phase, count] or none
           acked,    \* transactions acknowledged to the client as successful
-          nview, ndup, ncrash, nlose, h
-vars == <<log, cnt, nxt, buf, up, view, msgs, coord, acked, nview, ndup, ncrash, nlose, h>>
+          nview, ndup, ncrash, nlose, h,
+          cu        \* ghost: catch-up attempts so far: "none", "plain", "ahead" (the replica's log was ahead of its
+                    \* replicator), "refused" (the first served commit was refused)
+vars == <<log, cnt, nxt, buf, up, view, msgs, coord, acked, nview, ndup, ncrash, nlose, h, cu>>
 
 NoCoord == [c |-> CHOOSE n \in Node : TRUE, k |-> 0, ok |-> {}, phase |-> "none", count |-> 0]
 
@@ -64,7 +71,7 @@ Init ==
     /\ nxt = [n \in Node |-> 0] /\ buf = [n \in Node |-> {}]
     /\ up = [n \in Node |-> TRUE] /\ view = [n \in Node |-> Node]
     /\ msgs = {} /\ coord = [t \in TxId |-> NoCoord] /\ acked = {}
-    /\ nview = 0 /\ ndup = 0 /\ ncrash = 0 /\ nlose = 0 /\ h = << >>
+    /\ nview = 0 /\ ndup = 0 /\ ncrash = 0 /\ nlose = 0 /\ h = << >> /\ cu = "none"
 
 Rep(n, x) == [i \in 1..n |-> x]
 Min(S) == CHOOSE x \in S : \A y \in S : x <= y
@@ -87,7 +94,7 @@ ClientWrite(t, c) ==
                                             count |-> 1]]
           /\ acked' = IF solo THEN acked \cup {t} ELSE acked
           /\ h' = Append(h, [op |-> "write", tx |-> t, c |-> c, k |-> k, n |-> Txs[t], acked |-> solo])
-    /\ UNCHANGED <<nxt, buf, up, view, nview, ndup, ncrash, nlose>>
+    /\ UNCHANGED <<nxt, buf, up, view, nview, ndup, ncrash, nlose, cu>>
 
 \* drain the replica's buffer after an append
 RECURSIVE Drain(_, _, _, _, _)
@@ -99,7 +106,7 @@ Drain(l, c, nx, b, out) ==     \* returns [log, cnt, nxt, buf, oks (set of [tx, 
     ELSE [log |-> l, cnt |-> c, nxt |-> nx, buf |-> b, oks |-> out]
 
 RecvReplicate(m, keep) ==
-    /\ m \in msgs /\ m.kind = "rep" /\ up[m.to]
+    /\ m \in msgs /\ m.kind = "rep" /\ up[m.to] /\ <<m.to, m.k>> \notin HoldBack
     /\ (keep => ndup < MaxDup) /\ ndup' = IF keep THEN ndup + 1 ELSE ndup
     /\ LET r == m.to
            reply(ok) == [kind |-> IF ok THEN "ok" ELSE "err", from |-> r, to |-> m.from, tx |-> m.tx, k |-> m.k, count |-> 0]
@@ -134,7 +141,7 @@ RecvReplicate(m, keep) ==
                           \cup {[kind |-> "err", from |-> r, to |-> e.c, tx |-> e.tx, k |-> e.k, count |-> 0] : e \in stale}
                /\ h' = Append(h, [op |-> "rep", tx |-> m.tx, from |-> m.from, to |-> r, k |-> m.k, res |-> "ok",
                                   drained |-> Cardinality(d.oks)])
-    /\ UNCHANGED <<up, view, coord, acked, nview, ncrash, nlose>>
+    /\ UNCHANGED <<up, view, coord, acked, nview, ncrash, nlose, cu>>
 
 RecvReply(m) ==
     /\ m \in msgs /\ m.kind \in {"ok", "err"} /\ up[m.to]
@@ -162,13 +169,13 @@ RecvReply(m) ==
        ELSE /\ UNCHANGED <<coord, cnt, acked>>
             /\ h' = Append(h, [op |-> "reply", tx |-> m.tx, from |-> m.from, to |-> m.to, ok |-> m.kind = "ok",
                                acked |-> FALSE, count |-> 0])
-    /\ UNCHANGED <<log, nxt, buf, up, view, nview, ndup, ncrash, nlose>>
+    /\ UNCHANGED <<log, nxt, buf, up, view, nview, ndup, ncrash, nlose, cu>>
 
 GiveUp(t) ==
     /\ coord[t].phase = "replicating"
     /\ coord' = [coord EXCEPT ![t].phase = "failed"]
     /\ h' = Append(h, [op |-> "giveup", tx |-> t])
-    /\ UNCHANGED <<log, cnt, nxt, buf, up, view, msgs, acked, nview, ndup, ncrash, nlose>>
+    /\ UNCHANGED <<log, cnt, nxt, buf, up, view, msgs, acked, nview, ndup, ncrash, nlose, cu>>
 
 RecvConfirm(m, keep) ==
     /\ m \in msgs /\ m.kind = "conf" /\ up[m.to]
@@ -179,41 +186,71 @@ RecvConfirm(m, keep) ==
        ELSE UNCHANGED cnt
     /\ h' = Append(h, [op |-> "confirm", tx |-> m.tx, to |-> m.to, k |-> m.k, count |-> m.count,
                        applied |-> HasAt(m.to, m.tx, m.k)])
-    /\ UNCHANGED <<log, nxt, buf, up, view, coord, acked, nview, ncrash, nlose>>
+    /\ UNCHANGED <<log, nxt, buf, up, view, coord, acked, nview, ncrash, nlose, cu>>
 
 \* ------------------------------------------------------------------ catch-up
+(***************************************************************************)
+(* A replica whose oldest buffered write lies above its next expected      *)
+(* sequence asks that write's coordinator for the commits from its next    *)
+(* sequence up to the one before the buffered key.  The coordinator serves *)
+(* whole transactions that start at or after that sequence, below its own  *)
+(* confirmed watermark.  The replica appends them one after the other, each*)
+(* with the coordinator's count and with the stream versions the events    *)
+(* have on the coordinator as exact expectations; the first refused commit *)
+(* ends the attempt.  After each append the next expected sequence is the  *)
+(* end of the replica's log and buffered writes below it are answered      *)
+(* stale; when every commit went in, the buffer is drained.                *)
+(*                                                                         *)
+(* The replica's log may be ahead of its replicator (a node that           *)
+(* coordinated writes itself does not advance its own replicator), and may *)
+(* differ from the coordinator's.  PinSeq = TRUE is the design: a served   *)
+(* commit is appended only at its own sequence.  PinSeq = FALSE is the     *)
+(* deviation: it lands wherever the replica's log ends.                    *)
+(***************************************************************************)
+SCount(l, s) == Cardinality({i \in 1..Len(l) : TxStream[l[i]] = s})
 CatchUp(r) ==
-    /\ up[r] /\ buf[r] # {} /\ Len(log[r]) = nxt[r]
+    /\ up[r] /\ buf[r] # {}
     /\ LET oldest == CHOOSE e \in buf[r] : \A x \in buf[r] : e.k <= x.k
            c == oldest.c
        IN /\ oldest.k > nxt[r] /\ up[c]
-          \* whole transactions of the coordinator's log that start at or after nxt[r], below its
-          \* watermark and before the oldest buffered key
-          /\ LET RECURSIVE Take(_, _, _)
-                 Take(l, cs, i) ==
-                    IF i < Watermark(c) /\ i < oldest.k /\ i < Len(log[c])
-                    THEN LET t == log[c][i + 1] IN
-                         IF HasAt(c, t, i) THEN Take(l \o Rep(Txs[t], t), cs \o Rep(Txs[t], cnt[c][i + 1]), i + Txs[t])
-                         ELSE [log |-> l, cnt |-> cs, nxt |-> i]
-                    ELSE [log |-> l, cnt |-> cs, nxt |-> i]
-                 got == Take(log[r], cnt[r], nxt[r])
-                 d == Drain(got.log, got.cnt, got.nxt, {x \in buf[r] : x.k >= got.nxt}, {})
-             IN /\ got.nxt > nxt[r]
+          /\ LET RECURSIVE Apply(_, _, _, _)
+                 \* l, cs: the replica's log and counts; nx: its next sequence; i: position in the coordinator's log
+                 Apply(l, cs, nx, i) ==
+                    IF i < Watermark(c) /\ i < oldest.k /\ i < Len(log[c]) /\ HasAt(c, log[c][i + 1], i)
+                    THEN LET t == log[c][i + 1]
+                             versionOk == SCount(l, TxStream[t]) = SCount(SubSeq(log[c], 1, i), TxStream[t])
+                             seqOk == ~PinSeq \/ Len(l) = i
+                         IN IF versionOk /\ seqOk
+                            THEN Apply(l \o Rep(Txs[t], t), cs \o Rep(Txs[t], cnt[c][i + 1]), Len(l) + Txs[t], i + Txs[t])
+                            ELSE [log |-> l, cnt |-> cs, nxt |-> nx, all |-> FALSE]
+                    ELSE [log |-> l, cnt |-> cs, nxt |-> nx, all |-> TRUE]
+                 got == Apply(log[r], cnt[r], nxt[r], nxt[r])
+                 stale == {x \in buf[r] : x.k < got.nxt}
+                 d == IF got.all THEN Drain(got.log, got.cnt, got.nxt, buf[r] \ stale, {})
+                      ELSE [log |-> got.log, cnt |-> got.cnt, nxt |-> got.nxt, buf |-> buf[r] \ stale, oks |-> {}]
+                 \* the coordinator has at least one commit to serve (an empty answer changes nothing and is not a step;
+                 \* an answer whose first commit is refused changes nothing either but is recorded: the attempt is replayed)
+                 served == nxt[r] < Watermark(c) /\ nxt[r] < Len(log[c]) /\ HasAt(c, log[c][nxt[r] + 1], nxt[r])
+             IN /\ served
                 /\ log' = [log EXCEPT ![r] = d.log] /\ cnt' = [cnt EXCEPT ![r] = d.cnt]
                 /\ nxt' = [nxt EXCEPT ![r] = d.nxt] /\ buf' = [buf EXCEPT ![r] = d.buf]
                 /\ msgs' = msgs \cup {[kind |-> "ok", from |-> r, to |-> e.c, tx |-> e.tx, k |-> e.k, count |-> 0] : e \in d.oks}
-                /\ h' = Append(h, [op |-> "catchup", r |-> r, from |-> c, upto |-> got.nxt])
+                                 \cup {[kind |-> "err", from |-> r, to |-> e.c, tx |-> e.tx, k |-> e.k, count |-> 0] : e \in stale}
+                /\ h' = Append(h, [op |-> "catchup", r |-> r, from |-> c, len |-> Len(d.log), nxt |-> d.nxt,
+                                   ahead |-> Len(log[r]) > nxt[r], refused |-> ~got.all, drained |-> Cardinality(d.oks), stale |-> Cardinality(stale)])
+                /\ cu' = IF Len(got.log) = Len(log[r]) THEN "refused" ELSE IF Len(log[r]) > nxt[r] \/ cu = "ahead" THEN "ahead"
+                         ELSE IF cu = "none" THEN "plain" ELSE cu
     /\ UNCHANGED <<up, view, coord, acked, nview, ndup, ncrash, nlose>>
 
 \* ------------------------------------------------------------------ environment
 Lose(m) == /\ m \in msgs /\ nlose < MaxLose /\ msgs' = msgs \ {m} /\ nlose' = nlose + 1
            /\ h' = Append(h, [op |-> "lose", kind |-> m.kind, tx |-> m.tx, to |-> m.to])
-           /\ UNCHANGED <<log, cnt, nxt, buf, up, view, coord, acked, nview, ndup, ncrash>>
+           /\ UNCHANGED <<log, cnt, nxt, buf, up, view, coord, acked, nview, ndup, ncrash, cu>>
 ViewChange(n, v) ==
     /\ up[n] /\ nview < MaxView /\ n \in v /\ v # view[n]
     /\ view' = [view EXCEPT ![n] = v] /\ nview' = nview + 1
     /\ h' = Append(h, [op |-> "view", n |-> n, v |-> v])
-    /\ UNCHANGED <<log, cnt, nxt, buf, up, msgs, coord, acked, ndup, ncrash, nlose>>
+    /\ UNCHANGED <<log, cnt, nxt, buf, up, msgs, coord, acked, ndup, ncrash, nlose, cu>>
 Crash(n) ==
     /\ up[n] /\ ncrash < MaxCrash
     /\ up' = [up EXCEPT ![n] = FALSE] /\ ncrash' = ncrash + 1
@@ -221,12 +258,12 @@ Crash(n) ==
     /\ coord' = [t \in TxId |-> IF coord[t].c = n /\ coord[t].phase = "replicating"
                                  THEN [coord[t] EXCEPT !.phase = "failed"] ELSE coord[t]]
     /\ h' = Append(h, [op |-> "crash", n |-> n])
-    /\ UNCHANGED <<log, cnt, nxt, view, msgs, acked, nview, ndup, nlose>>
+    /\ UNCHANGED <<log, cnt, nxt, view, msgs, acked, nview, ndup, nlose, cu>>
 Restart(n) ==
     /\ ~up[n]
     /\ up' = [up EXCEPT ![n] = TRUE] /\ nxt' = [nxt EXCEPT ![n] = Len(log[n])]
     /\ h' = Append(h, [op |-> "restart", n |-> n])
-    /\ UNCHANGED <<log, cnt, buf, view, msgs, coord, acked, nview, ndup, ncrash, nlose>>
+    /\ UNCHANGED <<log, cnt, buf, view, msgs, coord, acked, nview, ndup, ncrash, nlose, cu>>
 
 Next ==
     \/ \E t \in TxId, c \in Node : ClientWrite(t, c)
@@ -260,5 +297,5 @@ QuorumCountMeansQuorumHeld ==
         cnt[n][i] >= Quorum => Cardinality({m \in Node : i <= Len(log[m]) /\ log[m][i] = log[n][i]}) >= Quorum
 CntShape == \A n \in Node : Len(cnt[n]) = Len(log[n])
 
-View == <<log, cnt, nxt, buf, up, view, msgs, coord, acked, nview, ndup, ncrash, nlose>>
+View == <<log, cnt, nxt, buf, up, view, msgs, coord, acked, nview, ndup, ncrash, nlose, cu>>
 =============================================================================
